@@ -121,10 +121,12 @@ def Arr.close (a : Arr) : List Step × Arr :=
     let (s, a') := a.writeHeader
     (s ++ [.sync], { a' with closed := true, mm := false })
 
-/-- `NpyArray(filename)` on an existing file: state read from the on-disk header -/
+/-- `NpyArray(filename)` on an existing file: state read from the on-disk header.  A file without a header is, at
+    the points where the model reopens (between complete operations), a file that was created and never written:
+    it is EMPTY, and (after fix: an existing empty file is a new array) gives a fresh uninitialised array -/
 def Arr.open (d : Disk) : Except Err Arr :=
   match d.hdr with
-  | none => .error .valueError
+  | none => .ok {}
   | some r => .ok { initialized := true, rows := r }
 
 /-- the `NpyStore` object -/
@@ -214,9 +216,9 @@ def Spec.all (sp : Spec) : List (List Row) := sp.avail ++ sp.hidden
 /-- the rows a standard reader sees in the file -/
 def Spec.rows (sp : Spec) : List Row := sp.all.flatten
 
-/-- one operation of the reference semantics.  `init` = the store has ever been written (two
-    documented quirks of the real store: `clear` on a never-written store raises, and reopening /
-    unpickling needs a file with a header). -/
+/-- one operation of the reference semantics.  `init` = the store has ever been written (a
+    documented quirk of the real store: `clear` on a never-written store raises; reopening / unpickling a
+    never-written store gives an empty store). -/
 def specStep (sp : Spec) (init : Bool) : Op → Except Err Spec
   | .set i batch =>
     if i < sp.avail.length then .ok { sp with avail := sp.avail.set i batch }
@@ -225,10 +227,9 @@ def specStep (sp : Spec) (init : Bool) : Op → Except Err Spec
   | .del i =>
     if i + 1 = sp.avail.length then .ok { avail := sp.avail.dropLast, hidden := [] } else .error .indexError
   | .clear => if init then .ok {} else .error .valueError
-  | .reopenN n =>
-    if init then .ok { avail := sp.all.take n, hidden := sp.all.drop n } else .error .valueError
-  | .reopen => if init then .ok { avail := sp.all, hidden := [] } else .error .valueError
-  | .pickle => if init then .ok sp else .error .valueError
+  | .reopenN n => .ok { avail := sp.all.take n, hidden := sp.all.drop n }
+  | .reopen => .ok { avail := sp.all, hidden := [] }
+  | .pickle => .ok sp
   | .flush | .close => .ok sp
 
 /-- run a history.  Returns per operation the outcome (`none` = ok) and the steps issued, plus the
